@@ -142,6 +142,14 @@ CHECKS["C15"] = (
     "DESIGN.md section 5 C15",
 )
 
+CHECKS["C14"] = (
+    "fault_enumeration",
+    "fault injection with an observer: real .lpyc files written by a child under one hash seed are truncated, header-perturbed or made stale, then imported by fresh child interpreters under other hash seeds with the importer's loader paths and bytecode execution wrapped; the child reports the path taken, cached code objects executed, a canonical namespace snapshot with probe forms compiled at run time, and the state of the cache afterwards; the decoding layer is driven with every small and strided truncation length",
+    "Held on generated namespaces (keywords, symbols, records, multimethods, protocols, typed constants, macros, nested requires) and bundled library namespaces: valid-cache transparency under reader seeds 2-3 (thorough 2-7), empty file, ~25 (thorough 300+) truncation offsets per namespace, all header field perturbations, three kinds of stale source, each followed by a validity check of the rewritten cache; ~8000 truncation lengths at the decoding layer in quick. Fault enumeration over the listed faults, sampled offsets through the full import path.",
+    "Trusted: snapshot canonicalisation (addresses, gensym counters and hash-collection order normalised); corruption other than truncation/header perturbation and same-second same-size edits are out of scope.",
+    "DESIGN.md section 5 C14",
+)
+
 NOT_BUILT ="check not built yet in this session (design in DESIGN.md section 5); not claimed until its monitor exists and is quiet on the unchanged tree"
 
 
